@@ -1132,7 +1132,7 @@ def _model_json(m: onnx.ModelProto) -> dict:
     }
 
 
-def run_spox(op: Op, call, value_prop: bool = False, vs=None) -> dict:
+def run_spox(op: Op, call, value_prop: bool = False, vs=None, keep_outputs: bool = False) -> dict:
     """Call the real constructor through the public API; observe the exception or the output types.
     Best-effort observations for the correspondence (never fatal; failures go to `obs_errors`): the
     request spox made to onnx.shape_inference (model + flags + answer) and the node object."""
@@ -1242,6 +1242,8 @@ def run_spox(op: Op, call, value_prop: bool = False, vs=None) -> dict:
         if out is not None:
             outs = list(out) if isinstance(out, (tuple, list)) else [out]
             res["types"] = [from_spox_type(getattr(v, "type", None)) for v in outs]
+            if keep_outputs:
+                res["outputs"] = outs
         try:
             cls = node_class(op)
             if call.get("sub"):
@@ -1501,3 +1503,200 @@ def run_history(op: Op, hist: dict) -> list:
         warnings.simplefilter("ignore")
         vs = make_vars({"vars": hist["vars"]})
     return [run_spox(op, c, vs=vs) for c in history_calls(hist)]
+
+
+# ------------------------------------------------------------ cross-operator histories ("flows")
+def _mk(module, opname, args, attrs=None, out_count=None):
+    return {"module": module, "op": opname, "args": args, "attrs": attrs or {}, "out_count": out_count, "family": "flow"}
+
+
+def _flow_templates(rng, module, vars_, c):
+    """Calls of different operators that take the shared constant `c` (int64 vector [a, b]) in
+    differently named slots; other operands are fresh typed arguments appended to `vars_`."""
+    a, b = vars_[c]["const"]["data"][:2]
+    e = rng.choice([1, 1, 7, 11])
+
+    def arg(elem, shape):
+        vars_.append({"ty": {"t": elem, "s": shape}, "const": None})
+        return len(vars_) - 1
+
+    def const(elem, shape, data):
+        vars_.append({"ty": {"t": elem, "s": shape}, "const": {"dtype": elem, "shape": shape, "data": data}})
+        return len(vars_) - 1
+
+    T = [
+        lambda: _mk(module, "Reshape", [arg(e, rng.choice([[a * b], [b, a], [a, b, 1]])), c]),
+        lambda: _mk(module, "Reshape", [arg(e, [rng.choice([a * b + 1, 7])]), c]),               # ONNX rejects
+        lambda: _mk(module, "Tile", [arg(e, [rng.choice([1, 2, 3]), rng.choice([1, 2])]), c]),
+        lambda: _mk(module, "Expand", [arg(e, rng.choice([[1, b], [b], [a, 1], [1, 1]])), c]),
+        lambda: _mk(module, "Expand", [arg(e, [1, b + 1]), c]),                                   # ONNX rejects (unless b + 1 == 1)
+        lambda: _mk(module, "ConstantOfShape", [c]),
+        lambda: _mk(module, "Reshape", [c, const(7, [1], [-1])]),                                 # a former `shape` as `data`
+        lambda: _mk(module, "Reshape", [c, const(7, [2], [1, 2])]),
+        lambda: _mk(module, "Add", [c, arg(7, rng.choice([[2], [1], []]))]),
+        lambda: _mk(module, "Mul", [arg(7, [2]), c]),
+        lambda: _mk(module, "Identity", [c]),
+        lambda: _mk(module, "Shape", [c]),
+        lambda: _mk(module, "Cast", [c], {"to": {"dtype": rng.choice([1, 6, 11])}}),
+        lambda: _mk(module, "Concat", [[c, const(7, [1], [rng.choice([1, 5])])]], {"axis": 0}),
+        lambda: _mk(module, "Concat", [[arg(7, [rng.choice([1, 3])]), c]], {"axis": 0}),
+        lambda: _mk(module, "Gather", [c, const(7, [], [rng.choice([0, 1])])]),
+        lambda: _mk(module, "Pad", [arg(e, [rng.choice([3, 4])]), c]),
+        lambda: _mk(module, "Equal", [c, arg(7, [2])]),
+        lambda: _mk(module, "Unsqueeze", [c, const(7, [1], [0])]),
+        lambda: _mk(module, "ReduceSum", [c, None]),
+        lambda: _mk(module, "Squeeze", [arg(e, [1, 1, 1, 1, 3]), const(7, [1], [0])]),
+    ]
+    return rng.choice(T)()
+
+
+def _splice(rng, op: Op, vars_, shared):
+    """A random call of `op` with one compatible tensor slot replaced by the shared Var (None if
+    there is none). The call's own Vars are appended to `vars_`."""
+    sty = vars_[shared]["ty"]
+    if not sty or "t" not in sty:
+        return None
+    for _ in range(4):
+        call = gen_call(rng, op, force="plain")
+        if "skip" in call or call.get("sub"):
+            return None
+        off = len(vars_)
+        slots = []
+        for i, a in enumerate(call["args"]):
+            for j, v in enumerate(a if isinstance(a, list) else [a]):
+                if v is not None:
+                    t = call["vars"][v]["ty"]
+                    if t and "t" in t and t["t"] == sty["t"]:
+                        slots.append((i, j if isinstance(a, list) else None, call["vars"][v]["const"] is not None))
+        if not slots:
+            continue
+        pref = [s_ for s_ in slots if s_[2]] or slots  # replacing a constant operand is the interesting case
+        i, j, _c = rng.choice(pref)
+        sh = lambda a: None if a is None else [x + off for x in a] if isinstance(a, list) else a + off  # noqa: E731
+        vars_ += call["vars"]
+        call = {k: v for k, v in call.items() if k != "vars"}
+        call["args"] = [sh(a) for a in call["args"]]
+        if j is None:
+            call["args"][i] = shared
+        else:
+            call["args"][i][j] = shared
+        call["family"] = "flow"
+        return call
+    return None
+
+
+_INT_SLOT_OPS: dict = {}
+
+
+def _ops_with_int_slot(module):
+    if module not in _INT_SLOT_OPS:
+        out = []
+        for o in load_vocabulary():
+            if o.module == module and o.name not in BODY_OPS:
+                if any(p.type_str in ("tensor(int64)",) for p in o.schema().inputs):
+                    out.append(o)
+        _INT_SLOT_OPS[module] = out
+    return _INT_SLOT_OPS[module]
+
+
+def gen_flow(rng, module: str) -> Optional[dict]:
+    """2-4 calls of DIFFERENT operators in one process through which one Var flows (a constant with a
+    known value, a typed argument, or the result of the first call), in differently named slots."""
+    byname = {o.name: o for o in load_vocabulary() if o.module == module}
+    allops = [o for o in byname.values() if o.name not in BODY_OPS]
+    vars_: list = []
+    kind = _pick(rng, [("shape-const", 55), ("const", 12), ("argument", 15), ("result", 18)])
+    calls = []
+    if kind == "shape-const":
+        data = [rng.choice([1, 2, 2, 3]), rng.choice([1, 2, 3, 4])]
+        vars_.append({"ty": {"t": 7, "s": [2]}, "const": {"dtype": 7, "shape": [2], "data": data}})
+    elif kind == "const":
+        e = rng.choice([1, 7, 11])
+        shape = rng.choice([[], [1], [3]])
+        vars_.append({"ty": {"t": e, "s": shape}, "const": {"dtype": e, "shape": shape, "data": _const_data(rng, e, shape)}})
+    elif kind == "argument":
+        vars_.append({"ty": {"t": rng.choice([1, 7]), "s": _rand_dims(rng, rng.randint(0, 3))}, "const": None})
+    shared = 0
+    if kind == "result":
+        for _ in range(6):
+            op0 = rng.choice(allops)
+            if is_supplemented(op0) or op0.name == "Constant":  # (Constant's result also carries a value)
+                continue  # spox reports its own (possibly weaker) type there: not a type the oracle can predict
+            c0 = gen_call(rng, op0, force="plain")
+            if "skip" in c0:
+                continue
+            try:
+                r0 = oracle_run(op0, c0)
+            except Exception:  # noqa: BLE001
+                continue
+            if r0["reject"] or not r0["types"] or not r0["types"][0] or "t" not in r0["types"][0]:
+                continue
+            vars_ += c0["vars"]
+            calls.append({k: v for k, v in c0.items() if k != "vars"})
+            calls[0]["family"] = "flow"
+            vars_.append({"ty": r0["types"][0], "const": None, "result_of": [0, 0]})
+            shared = len(vars_) - 1
+            break
+        else:
+            return None
+    n = rng.choice([2, 3, 3, 4])
+    tries = 0
+    while len(calls) < n and tries < 12:
+        tries += 1
+        if kind == "shape-const" and rng.random() < 0.6 and all(k in byname for k in ("Reshape", "Tile")):
+            c = _flow_templates(rng, module, vars_, shared)
+            if c["op"] not in byname:
+                continue
+            nin = len(byname[c["op"]].schema().inputs)
+            c["args"] = (c["args"] + [None] * nin)[:max(nin, len(c["args"]))]
+        else:
+            pool = _ops_with_int_slot(module) if (vars_[shared]["ty"]["t"] == 7 and rng.random() < 0.6) else allops
+            if not pool:
+                pool = allops
+            c = _splice(rng, rng.choice(pool), vars_, shared)
+            if c is None:
+                continue
+        calls.append(c)
+    if len(calls) < 2:
+        return None
+    return {"vars": vars_, "calls": calls, "shared": shared, "kind": kind}
+
+
+def run_flow(ops_by_key: dict, flow: dict) -> list:
+    """The calls of a flow, one after the other in this process, on shared Var objects; outputs of
+    earlier calls are bound to the `result_of` entries."""
+    from spox import argument
+    import spox.opset.ai.onnx.v17 as op17
+
+    with warnings.catch_warnings():
+        warnings.simplefilter("ignore")
+        vs = []
+        for v in flow["vars"]:
+            if v.get("result_of"):
+                vs.append(None)
+            elif v["const"] is not None:
+                vs.append(op17.const(const_array(v["const"])))
+            else:
+                vs.append(argument(spox_type(v["ty"])))
+    out = []
+    for k, c in enumerate(flow["calls"]):
+        op = ops_by_key[call_op_key(c)]
+        call = dict(c, vars=flow["vars"])
+        needed = [v for a in call["args"] for v in (a if isinstance(a, list) else [a]) if v is not None]
+        if any(vs[v] is None for v in needed):
+            out.append(None)  # an operand is the result of a call that did not return
+            continue
+        sp = run_spox(op, call, vs=vs, keep_outputs=True)
+        out.append(sp)
+        for i, v in enumerate(flow["vars"]):
+            ro = v.get("result_of")
+            if ro and ro[0] == k and sp.get("outputs") and ro[1] < len(sp["outputs"]):
+                vs[i] = sp["outputs"][ro[1]]
+        sp.pop("outputs", None)
+    return out
+
+
+def call_op_key(c) -> str:
+    mod = c["module"]
+    tail = mod.rsplit(".", 1)[1]
+    return f"{'ml.' + tail if '.ml.' in mod else tail}.{c['op']}"
